@@ -92,7 +92,7 @@ func teardown(c *fw.Ctx) {
 	}
 }
 
-var faults = []string{"none", "ipfs-error", "non-json", "reset", "reset-mid-body", "stall", "progress-stall", "progress-late-error", "slow-progress", "already-pinned-error", "not-pinned-error"}
+var faults = []string{"none", "ipfs-error", "non-json", "reset", "reset-mid-body", "stall", "progress-stall", "progress-repeat-stall", "progress-late-error", "slow-progress", "already-pinned-error", "not-pinned-error"}
 
 func apiStep(path string) string { return strings.TrimPrefix(path, "/api/v0/") }
 
@@ -205,6 +205,12 @@ func run(c *fw.Ctx, idx int) {
 				return &sim.HTTPReply{Kind: "stall", Stall: 20 * time.Second}
 			}
 			return &sim.HTTPReply{Kind: "progress-stall", Steps: 3, Interval: 10 * time.Millisecond, Stall: 20 * time.Second}
+		case "progress-repeat-stall":
+			if step != "pin/add" {
+				return &sim.HTTPReply{Kind: "stall", Stall: 20 * time.Second}
+			}
+			// the same progress value every pin_timeout/5, for 20 s
+			return &sim.HTTPReply{Kind: "progress-repeat-stall", Steps: 3, Interval: pinTimeout / 5, Stall: 20 * time.Second}
 		case "progress-late-error":
 			if step != "pin/add" {
 				return &sim.HTTPReply{Kind: "ipfs-error", Message: "late"}
